@@ -191,6 +191,11 @@ def _drive_param(args):
         recs = []
         for j in range(r.choice((1, 3, 8, 30))):
             n = r.choice((1, 20, 250, 1008, 1012, r.randrange(1, 600)))
+            if cid % 3 == 1 and j % 3 == 0:
+                # fixed-width text padded with blanks / low values: runs long enough to fill whole 1014 blocks
+                n = r.choice((2023, 2100, 3040, 1012, 2024))
+                recs.append(bytes([r.choice((0x40, 0x20, 0x00, 0x40))]) * n)
+                continue
             recs.append(bytes(r.randrange(256) for _ in range(n)) if j % 2 else drv.CODE[j:j + n])
         _, src = drv.vbs_write_events(recs, fi == '1014')
         t = {'tid': 0, 'op': 'convert', 'blk': fi == '1014', 'blkout': fo == '1014', 'file': list(src), 'table': [], 'expanded': False,
